@@ -237,3 +237,14 @@ impl BytesList {
 #[verifier::external_body]
 pub fn vhash_reader(r: BytesList) -> (id: Id) ensures id.0 == SHA256(r.all@), { unimplemented!() }
 pub fn vpackid_from_id(id: Id) -> (r: PackId) ensures r.0 == id.0, { PackId(id.0) }
+
+// ---- Packer::new pipeline: compress + encrypt of one blob; the blob keeps its id ----
+pub uninterp spec fn PROCESSED(plain: Seq<u8>) -> (Seq<u8>, u32, Option<u32>);
+pub struct VProcessBe { pub _opaque: u64 }
+impl VProcessBe {
+    // DecryptWriteBackend::process_data: (compress,) encrypt and (with extra_verify) check; Kani harnesses of C04 cover the read side
+    #[verifier::external_body]
+    pub fn process_data(&self, data: &Bytes) -> (r: RusticResult<(Vec<u8>, u32, Option<NonZeroU32>)>)
+        ensures r matches Ok(x) ==> (x.0@, x.1, x.2) == PROCESSED(data.data@),
+    { unimplemented!() }
+}
